@@ -170,7 +170,17 @@ impl G {
     }
 
     fn boolean(&mut self, d: u32) -> J {
-        match self.rng.gen_range(0..if d == 0 { 6 } else { 24 }) {
+        match self.rng.gen_range(0..if d == 0 { 8 } else { 26 }) {
+            24 | 6 if d == 0 || self.chance(0.5) => {
+                // the request's action or an action literal, compared with / tested for membership in an action (group)
+                let a = if self.chance(0.5) { v("action") } else { lit_ent("Action", *self.pick(&["view", "edit", "all"])) };
+                let b = lit_ent("Action", *self.pick(&["view", "edit", "all", "all"]));
+                if self.chance(0.7) { bin("in", a, b) } else { bin("eq", a, b) }
+            }
+            25 | 7 if d == 0 || self.chance(0.5) => {
+                let a = if self.chance(0.5) { v("action") } else { lit_ent("Action", *self.pick(&["view", "edit"])) };
+                bin("in", a, json!(["set", [lit_ent("Action", "all"), lit_ent("Action", *self.pick(&["view", "edit"]))]]))
+            }
             0 => lit_bool(self.chance(0.5)),
             1 => get(v("resource"), "pub"),
             2 => {
@@ -248,8 +258,9 @@ impl G {
                 json!(["isEmpty", s])
             }
             _ => {
-                let a = self.set_user(d - 1);
-                let u = self.user(d - 1);
+                let dd = d.max(1);
+                let a = self.set_user(dd - 1);
+                let u = self.user(dd - 1);
                 bin("contains", a, u)
             }
         }
